@@ -48,7 +48,7 @@ PROBES = ["extractfile_before_lookup", "clients_start_before_any_listing", "file
           "readline_unterminated_last_line_odd", "readline_unterminated_last_line_even",
           "readline_n_crossing_member_end", "read_after_seek_past_end",
           "alternating_single_byte_reads", "duplicate_name_lookup", "empty_member",
-          "two_arfiles_one_fileobj", "opened_by_filename", "archive_object_dropped_members_kept", "archive_starts_inside_the_file_object", "readlines_on_non_last_member",
+          "two_arfiles_one_fileobj", "opened_by_filename", "archive_object_dropped_members_kept", "archive_starts_inside_the_file_object", "more_than_64_member_handles_alive", "readlines_on_non_last_member",
           "bsd_style_name", "payload_contains_header_magic"]
 
 _STATE = {}
@@ -115,6 +115,10 @@ def generate(seed, run, tier):
     rs = stream_rng(seed, ID, run, "swarm")
     rq = stream_rng(seed, ID, run, "sched")
     nm = rs.choice([0, 1, 2, 2, 3, 3, 4, 6])
+    many = rs.random() < 0.01
+    if many:
+        # more live member handles than any internal pool or table is likely to hold
+        nm = rs.choice([70, 100, 140])
     names_pool = ["".join(rw.choice(NAME_CH) for _ in range(rw.choice([1, 2, 5, 9, 14, 15, 16])))
                   for _ in range(max(1, nm))]
     members = []
@@ -181,12 +185,20 @@ def generate(seed, run, tier):
             st["rel_end"] = rq.random() < 0.5   # interpret t as distance from the end
         steps.append(st)
     # lifetime: the clients take the members and let go of the archive object itself
+    if many:
+        # tiny members, distinct names; every member is touched once before the clients start
+        for i, m_ in enumerate(members):
+            m_["name"] = "n%d" % i
+            m_["data"] = enc_bytes(rw.choice([b"x\ny", b"q\n", b"ab", b"l1\nl2\n"]))
+        archives = [rs.choice(["filename", "filename", "fileobj"]) for _ in archives]
+        prior = None
     detach = [rs.random() < 0.2 for _ in range(narch)]
     # the file object handed over holds other data before the archive and is positioned at
     # the archive's first byte (an even or odd number of bytes in)
     lead = rs.choice([0] * 6 + [1, 7, 8, 60, 61])
     return {"world": {"members": members, "archives": archives, "list_first": list_first,
-                      "prior": prior, "detach": detach, "lead": lead}, "trace": steps}
+                      "prior": prior, "detach": detach, "lead": lead, "touch_all": many},
+            "trace": steps}
 
 
 def describe(case):
@@ -319,6 +331,18 @@ def execute(case):
             gc.collect()
         # ---- interleaved clients
         models = {}
+        if world.get("touch_all"):
+            # every member of every archive is opened (one byte read) and stays alive
+            out.probe("more_than_64_member_handles_alive")
+            for ai_ in range(len(ars)):
+                hs_ = kept[ai_] if ai_ in kept else ars[ai_].getmembers()
+                for mi_, h_ in enumerate(hs_[:len(members)]):
+                    models[(ai_, mi_)] = io.BytesIO(datas[mi_])
+                    want_, got_ = models[(ai_, mi_)].read(1), _call(h_.read, 1)
+                    if got_ != ("ok", want_):
+                        raise Violation("result-differs-from-in-memory-file", "read_n",
+                                        {"archive": ai_, "member": mi_, "got": got_,
+                                         "want": want_, "where": "first touch of every member"})
         inter = []
         used = set()
         returned_data = False
